@@ -129,10 +129,16 @@ class SmartList(_SliceNormalizerMixIn, list):
 
     def _detach_children(self):
         """Remove all children and give them independent parent copies."""
-        children = [val[0] for val in self._children.values()]
-        for child in children:
-            child()._parent = list(self)
+        children = list(self._children.values())
         self._children.clear()
+        for child_ref, sliceinfo in children:
+            child = child_ref()
+            if child is None:
+                continue
+            parent = SmartList(self)
+            child._parent = parent
+            new_ref = ref(child, parent._delete_child)
+            parent._children[id(new_ref)] = (new_ref, sliceinfo)
 
     @inheritdoc
     def append(self, item):
